@@ -75,6 +75,9 @@ pub struct Case {
     /// inputs are silent except for one impulse every 193 samples (so whole blocks are exactly silent)
     #[serde(default)]
     pub sparse: bool,
+    /// the last entry of `bufs_in` is not a node of its own: it is input 0 again, connected by a second (parallel) edge
+    #[serde(default)]
+    pub dup_last: bool,
 }
 
 /// 2^e as f32, e in -149..=127
@@ -88,6 +91,7 @@ fn pow2(e: i16) -> f32 {
 
 /// contents of buffer `b` of input node `node` in call `call`
 fn val(c: &Case, node: usize, b: usize, i: usize, call: usize) -> f32 {
+    let node = if c.dup_last && node + 1 == c.bufs_in.len() { 0 } else { node };
     if c.sparse && (call * LEN + i + node * 5 + b * 3) % 193 != c.salt as usize % 193 {
         return 0.0;
     }
@@ -143,8 +147,15 @@ fn run_in_graph<X: Node>(x: X, c: &Rc<Case>) -> Vec<Vec<Vec<f32>>> {
     if c.self_loop % 3 == 1 {
         g.add_edge(test, test, ());
     }
+    let mut first = None;
     for (j, &nb) in c.bufs_in.iter().enumerate() {
+        if c.dup_last && j > 0 && j + 1 == c.bufs_in.len() {
+            // the same source patched in twice
+            g.add_edge(first.unwrap(), test, ());
+            continue;
+        }
         let n = g.add_node(NodeData::new(TNode::Const(ConstWriter { node: j, call: 0, case: c.clone() }), vec![Buffer::SILENT; nb]));
+        first.get_or_insert(n);
         g.add_edge(n, test, ());
     }
     if c.self_loop % 3 == 2 {
@@ -267,6 +278,8 @@ fn f32s_eq(a: &[f32], b: &[f32]) -> bool {
 pub fn check(c0: &Case, st: &mut Stats) -> CheckResult {
     let c = Rc::new(c0.clone());
     ensure!(c.calls >= 1 && c.bufs_in.len() <= 8 && c.n_out <= 6, "bad case");
+    ensure!(!c.dup_last || (c.bufs_in.len() >= 2 && c.bufs_in[0] == c.bufs_in[c.bufs_in.len() - 1] && c.kind != Kind::GraphNode), "bad case: parallel edge needs two equal entries");
+    st.class_if(c.dup_last, "the same source connected by two parallel edges");
     let n_in = c.bufs_in.len();
     let mismatched = c.bufs_in.iter().any(|&b| b != c.n_out);
     let stateful = matches!(c.kind, Kind::Delay | Kind::Signal);
@@ -491,15 +504,21 @@ pub fn case_strategy() -> impl Strategy<Value = Case> {
             prop_oneof![3 => Just(0i16), 1 => proptest::sample::select(vec![-24i16, -30, -60, -100, -140]), 1 => -143i16..=0],
             prop_oneof![2 => Just(0u8), 1 => 1u8..=2],
             prop_oneof![3 => Just(false), 1 => Just(true)],
+            prop_oneof![3 => Just(false), 1 => Just(true)],
         )
-            .prop_map(move |(mut bufs_in, delay_lens, sig_channels, inner_bufs, sig_len, inner_kind, scale_exp, self_loop, sparse)| {
+            .prop_map(move |(mut bufs_in, delay_lens, sig_channels, inner_bufs, sig_len, inner_kind, scale_exp, self_loop, sparse, dup)| {
                 if kind == Kind::GraphNode {
                     let b0 = bufs_in.first().copied().unwrap_or(0);
                     for b in bufs_in.iter_mut() {
                         *b = b0;
                     }
                 }
-                Case { kind, wrapper: WRAPPERS[w], bufs_in, n_out, calls, exact, delay_lens, sig_channels, inner_bufs, salt: salt % 10_000, sig_len, inner_kind, scale_exp, self_loop, sparse }
+                let dup_last = dup && bufs_in.len() >= 2 && kind != Kind::GraphNode && kind != Kind::Signal && kind != Kind::Delay;
+                if dup_last {
+                    let l = bufs_in.len();
+                    bufs_in[l - 1] = bufs_in[0];
+                }
+                Case { kind, wrapper: WRAPPERS[w], bufs_in, n_out, calls, exact, delay_lens, sig_channels, inner_bufs, salt: salt % 10_000, sig_len, inner_kind, scale_exp, self_loop, sparse, dup_last }
             })
     })
 }
@@ -514,6 +533,7 @@ pub fn run(ctx: &mut Ctx) {
     for c in ["mismatched channel counts", "zero inputs", "consecutive calls on a stateful node", "wrapper", "input level below 2^-24", "node with inputs and an edge onto itself", "delay fed impulses separated by silent blocks", "pass node with several inputs", "signal node over a signal that ends during the run", "nested graph whose output node carries state between calls"] {
         ctx.require_class(c);
     }
+    ctx.require_class("the same source connected by two parallel edges");
     ctx.prop("random-configurations", ctx.pick(40_000, 400_000), case_strategy(), check);
     // every kind x every wrapper x a few channel layouts
     let mut cases = Vec::new();
@@ -535,7 +555,7 @@ pub fn run(ctx: &mut Ctx) {
                             continue;
                         }
                         cases.push(Case { kind, wrapper, bufs_in: bufs_in.clone(), n_out, calls: 4, exact, delay_lens: vec![64, 5, 100], sig_channels: 2, inner_bufs: 2, salt: 7,
-                            sig_len: [None, Some(100), Some(64)][variant as usize], inner_kind: variant, scale_exp, self_loop: (scale_exp.unsigned_abs() / 10 % 3) as u8, sparse: scale_exp == -30 });
+                            sig_len: [None, Some(100), Some(64)][variant as usize], inner_kind: variant, scale_exp, self_loop: (scale_exp.unsigned_abs() / 10 % 3) as u8, sparse: scale_exp == -30, dup_last: bufs_in == vec![2, 2, 2] && !exact && !matches!(kind, Kind::GraphNode | Kind::Signal | Kind::Delay) });
                     }
                 }
             }
